@@ -135,9 +135,10 @@ def r16_2(ctx, J):
                 continue
             if full not in want:
                 site = J.read_site[cn]
+                why = ("a saved value that is falsy (0, 0.0, an enum member whose value is 0) is replaced by the reader's default, so the loaded model differs from the saved one"
+                       if "falsy-to-default" in full else "the loaded attribute has a different type than the saved one")
                 ctx.violation(f"{cn}:codec:{k}", site[0].loc(params[p][2]),
-                              f"{cn}.{k} is written as `{shape}` ({ast.unparse(node)[:50]}) but read back as `{full}` (expected {sorted(want)}): "
-                              f"the loaded attribute has a different type than the saved one")
+                              f"{cn}.{k} is written as `{shape}` ({ast.unparse(node)[:50]}) but read back as `{full}` (expected {sorted(want)}): {why}")
             if d in ("enum", "list-enum"):
                 ecls = dshape.split(":")[1]
                 ft = ctx.types.field_type(cn, attr or p)
@@ -303,8 +304,55 @@ def r16_5(ctx, J):
     ctx.end()
 
 
+def r16_6(ctx):
+    """'writing never fails for a constructible model' / 'equals the original file value-for-value': the writer serialises with
+    options under which every str, float and nesting the model can hold is writable in the file's encoding (the json defaults:
+    pure ASCII output, NaN allowed), opens the file with the caller's encoding, and the reader opens it the same way."""
+    ctx.begin("R16.6", "writer: json.dump with total options into a file opened with the given encoding; reader opens symmetrically", floor=2)
+    from ..guards import region
+    w = ctx.repo.method(PROJECT, "write_simple_json")
+    # options of json.dump/dumps that can make serialisation of a valid model fail or lose information when changed from the default
+    strict = {"ensure_ascii": True, "allow_nan": True, "check_circular": True, "skipkeys": False}
+    ndump = 0
+    for g in region(ctx, [w]):
+        for n in ast.walk(g.node):
+            if isinstance(n, ast.Call) and ast.unparse(n.func) in ("json.dump", "json.dumps", "dump", "dumps"):
+                ndump += 1
+                ctx.instance(construct(g, "json.dump"), sample={"call": ast.unparse(n)[:80]})
+                for kw in n.keywords:
+                    if kw.arg is None:
+                        ctx.violation(construct(g, "json-options-unknown"), g.loc(n), f"`{ast.unparse(n)[:70]}` passes **options that are not known statically")
+                    elif kw.arg in strict:
+                        ok = isinstance(kw.value, ast.Constant) and kw.value.value is strict[kw.arg]
+                        if not ok:
+                            why = {"ensure_ascii": "non-ASCII names are then written as raw characters: writing raises UnicodeEncodeError for an `encoding` that lacks them (or a lone surrogate), "
+                                                   "and a file read back with another codec no longer restores the names",
+                                   "allow_nan": "a model holding inf/nan (e.g. an unset due time) can then not be written",
+                                   "check_circular": "a cyclic structure then recurses without bound", "skipkeys": "entries with non-string keys are then silently dropped"}[kw.arg]
+                            ctx.violation(construct(g, f"json-option:{kw.arg}"), g.loc(n), f"`{ast.unparse(n)[:70]}`: {kw.arg}={ast.unparse(kw.value)} (default {strict[kw.arg]}): {why}")
+            if isinstance(n, ast.Call) and isinstance(n.func, ast.Name) and n.func.id == "open":
+                enc = next((kw.value for kw in n.keywords if kw.arg == "encoding"), None)
+                ctx.instance(construct(g, "open"), sample={"call": ast.unparse(n)[:80]})
+                if not (isinstance(enc, ast.Name) and enc.id in g.params):
+                    ctx.violation(construct(g, "open-encoding"), g.loc(n), f"`{ast.unparse(n)[:70]}` does not open the file with the caller's `encoding` argument")
+                for kw in n.keywords:
+                    if kw.arg == "errors":
+                        ctx.violation(construct(g, "open-errors"), g.loc(n), f"`{ast.unparse(n)[:70]}` sets errors={ast.unparse(kw.value)}: characters the codec lacks are then silently altered in the saved file")
+    ctx.require(ndump >= 1, "no json.dump call found in write_simple_json")
+    for rn in ("read_simple_json", "append_project_log_from_simple_json"):
+        g = ctx.repo.method(PROJECT, rn)
+        for n in ast.walk(g.node):
+            if isinstance(n, ast.Call) and isinstance(n.func, ast.Name) and n.func.id == "open":
+                enc = next((kw.value for kw in n.keywords if kw.arg == "encoding"), None)
+                ctx.instance(construct(g, "open"), sample={"call": ast.unparse(n)[:80]})
+                if not (isinstance(enc, ast.Name) and enc.id in g.params) or any(kw.arg == "errors" for kw in n.keywords):
+                    ctx.violation(construct(g, "open-encoding"), g.loc(n), f"`{ast.unparse(n)[:70]}` does not open the file with the caller's `encoding` argument (strictly)")
+    ctx.end()
+
+
 def run(ctx):
     J = JsonTables(ctx)
+    r16_6(ctx)
     r16_1(ctx, J)
     r16_2(ctx, J)
     r16_3(ctx, J)
